@@ -1,12 +1,1418 @@
-//! stub: property C17 has no correspondence harness yet
+//! C17 — awc HTTP/1 client: complete body or error; safe connection reuse; bounded connections.
+//!
+//! One case = one `awc::Client` (with `Connector::new().limit(n)`) talking to one or two scripted raw
+//! TCP servers on 127.0.0.1 (authorities `a` and `b`), all inside one single-threaded actix System
+//! (client and servers are tasks of the same runtime, so no observable depends on thread
+//! scheduling). The servers write exactly the bytes of the script, in the given segments, half-close
+//! where the script says so, and record ground truth: which connection every request arrived on,
+//! how many sockets the client holds open, how many requests are in flight.
+//!
+//! Line protocol
+//!   case   := ["lim=" n] ["ka=0"] ["life=0"] op*
+//!   op     := "r:" auth ":" meth ":" mode ":" script        one request, then wait until quiescent
+//!           | "par:" auth+                                  concurrent GETs (canned complete responses)
+//!   auth   := "a" | "b"          meth := "g" (GET) | "h" (HEAD) | "c" (GET + force_close)
+//!   mode   := "f" (read body to the end) | "p" k (read until >= k body bytes were seen, then drop)
+//!   script := segs ["/" segs] "." ("k" | "c")   segs := "-" | hex ("|" hex)*
+//!             segments before "/" are written one by one; the part after "/" (leftover) is written
+//!             only after the client is done with the request; ".c" = server half-closes after the
+//!             last byte, ".k" = server keeps the socket open and waits for the next request
+//!   output := per op one token, then "mo=<max open sockets>,mi=<max requests in flight>"
+//!     r   -> <n|u|x><result>;o=<open>      n = arrived on a new socket, u = on a reused one
+//!            result = S<status>,B<hex> | S<status>,E<err> | S<status>,D (dropped early) | X<err>
+//!     par -> P<new>,<reused>,<ok>;o=<open>
+use std::{
+    cell::RefCell,
+    collections::{HashMap, HashSet},
+    rc::Rc,
+    time::Duration,
+};
+
+use futures_util::StreamExt as _;
+use tokio::{
+    io::{AsyncReadExt as _, AsyncWriteExt as _},
+    net::{TcpListener, TcpStream},
+    sync::Notify,
+};
+
 use super::Prop;
-use crate::common::CaseResult;
+use crate::common::{block_on_system, hex, hex0, unhex, CaseResult, Ctx, Rng, Tier};
+
+const RULE: &str = "cases = request programs against scripted raw TCP servers on loopback: (A) every response framing \
+(content-length, chunked with extensions, HTTP/1.0 read-to-close, no body, HEAD) cut by a server close at EVERY byte offset \
+of head and body, whole / 2-segment / 1-byte segmentations, each followed by further requests to the same authority \
+(observing new vs reused socket); (B) complete responses followed by leftover bytes (junk or a forged response) in the same \
+segment or after the exchange; (C) seeded random sequences of 2-7 requests over two authorities with early-dropped bodies \
+(drop after k bytes), keep/close, limit in {0,1,2,3}, idle/lifetime eviction; (D) concurrent batches above the limit; \
+(E) header-level framing variants (duplicate/signed/garbage content-length, TE+CL, TE identity/gzip/twice, connection \
+header variants, chunk-size overflow and syntax errors, 70 kB bodies). A case is non-trivial if at least one response head \
+was delivered to the client; distinct = distinct (case, output) hashes";
+
+// ---------------------------------------------------------------------------------------------
+// case syntax
+
+#[derive(Clone, Debug, Default)]
+struct Script {
+    pre: Vec<Vec<u8>>,
+    post: Vec<Vec<u8>>,
+    barrier: bool,
+    close: bool,
+}
+
+#[derive(Clone, Copy, Debug, PartialEq)]
+enum Meth {
+    Get,
+    Head,
+    GetClose,
+}
+
+#[derive(Clone, Copy, Debug, PartialEq)]
+enum Mode {
+    Full,
+    Part(usize),
+}
+
+#[derive(Clone, Debug)]
+enum Op {
+    Req { auth: usize, meth: Meth, mode: Mode, script: Script },
+    Par(Vec<usize>),
+    Bad,
+}
+
+#[derive(Clone, Debug)]
+struct Case {
+    limit: usize,
+    ka0: bool,
+    life0: bool,
+    ops: Vec<Op>,
+}
+
+fn parse_segs(s: &str) -> Option<Vec<Vec<u8>>> {
+    if s == "-" || s.is_empty() {
+        return Some(vec![]);
+    }
+    s.split('|').map(unhex).collect()
+}
+
+fn parse_script(s: &str) -> Option<Script> {
+    let (body, flag) = s.rsplit_once('.')?;
+    let close = match flag {
+        "c" => true,
+        "k" => false,
+        _ => return None,
+    };
+    let (pre, post, barrier) = match body.split_once('/') {
+        Some((p, q)) => (parse_segs(p)?, parse_segs(q)?, true),
+        None => (parse_segs(body)?, vec![], false),
+    };
+    Some(Script { pre, post, barrier, close })
+}
+
+fn parse_auth(c: char) -> Option<usize> {
+    match c {
+        'a' => Some(0),
+        'b' => Some(1),
+        _ => None,
+    }
+}
+
+fn parse_op(tok: &str) -> Op {
+    let parts: Vec<&str> = tok.split(':').collect();
+    match parts.as_slice() {
+        ["r", a, m, mode, script] => {
+            let auth = match a.chars().next().and_then(parse_auth) {
+                Some(x) if a.len() == 1 => x,
+                _ => return Op::Bad,
+            };
+            let meth = match *m {
+                "g" => Meth::Get,
+                "h" => Meth::Head,
+                "c" => Meth::GetClose,
+                _ => return Op::Bad,
+            };
+            let mode = if *mode == "f" {
+                Mode::Full
+            } else if let Some(k) = mode.strip_prefix('p').and_then(|k| k.parse::<usize>().ok()) {
+                Mode::Part(k)
+            } else {
+                return Op::Bad;
+            };
+            match parse_script(script) {
+                Some(script) => Op::Req { auth, meth, mode, script },
+                None => Op::Bad,
+            }
+        }
+        ["par", auths] if !auths.is_empty() && auths.len() <= 12 => {
+            match auths.chars().map(parse_auth).collect::<Option<Vec<usize>>>() {
+                Some(v) => Op::Par(v),
+                None => Op::Bad,
+            }
+        }
+        _ => Op::Bad,
+    }
+}
+
+fn parse_case(line: &str) -> Case {
+    let mut c = Case { limit: 2, ka0: false, life0: false, ops: vec![] };
+    for tok in line.split_ascii_whitespace() {
+        if let Some(v) = tok.strip_prefix("lim=") {
+            match v.parse::<usize>() {
+                Ok(n) if n <= 64 => c.limit = n,
+                _ => c.ops.push(Op::Bad),
+            }
+        } else if tok == "ka=0" {
+            c.ka0 = true;
+        } else if tok == "life=0" {
+            c.life0 = true;
+        } else {
+            c.ops.push(parse_op(tok));
+        }
+    }
+    c
+}
+
+// ---------------------------------------------------------------------------------------------
+// scripted servers (ground truth)
+
+#[derive(Clone, Debug)]
+struct ConnInfo {
+    auth: usize,
+    open: bool,
+    reqs: Vec<usize>,
+}
+
+#[derive(Clone, Debug)]
+struct Sample {
+    open: usize,
+    per_auth: [usize; 2],
+    inflight: usize,
+}
+
+#[derive(Default)]
+struct Shared {
+    scripts: HashMap<usize, Rc<Script>>,
+    conns: Vec<ConnInfo>,
+    inflight: usize,
+    samples: Vec<Sample>,
+    client_done: HashSet<usize>,
+    script_done: HashSet<usize>,
+    arrived: HashMap<usize, (usize, bool)>, // request id -> (conn id, first request on that conn)
+    batch_n: usize,
+    batch_l: usize,
+    batch_arrivals: usize,
+    stalls: usize, // hold / barrier time-outs: never expected
+}
+
+impl Shared {
+    fn sample(&mut self) {
+        let mut per = [0usize; 2];
+        for c in &self.conns {
+            if c.open {
+                per[c.auth] += 1;
+            }
+        }
+        let s = Sample { open: per[0] + per[1], per_auth: per, inflight: self.inflight };
+        self.samples.push(s);
+    }
+    fn open(&self) -> usize {
+        self.conns.iter().filter(|c| c.open).count()
+    }
+}
+
+type Sh = Rc<RefCell<Shared>>;
+
+const CANNED: &[u8] = b"HTTP/1.1 200 OK\r\ncontent-length: 2\r\n\r\nok";
+
+async fn wait_until(sh: &Sh, nt: &Notify, limit: Duration, pred: impl Fn(&Shared) -> bool) -> bool {
+    let start = std::time::Instant::now();
+    loop {
+        if pred(&sh.borrow()) {
+            return true;
+        }
+        if start.elapsed() > limit {
+            return false;
+        }
+        let _ = tokio::time::timeout(Duration::from_millis(4), nt.notified()).await;
+    }
+}
+
+async fn turn(n: usize) {
+    for _ in 0..n {
+        tokio::task::yield_now().await;
+    }
+}
+
+fn find(h: &[u8], n: &[u8]) -> Option<usize> {
+    h.windows(n.len()).position(|w| w == n)
+}
+
+async fn serve_conn(sh: Sh, nt: Rc<Notify>, mut s: TcpStream, cid: usize) {
+    let _ = s.set_nodelay(true);
+    let mut buf: Vec<u8> = Vec::new();
+    let mut half_closed = false;
+    loop {
+        // next request head (or the client's close)
+        let id = loop {
+            if !half_closed {
+                if let Some(pos) = find(&buf, b"\r\n\r\n") {
+                    let head: Vec<u8> = buf.drain(..pos + 4).collect();
+                    let line = String::from_utf8_lossy(&head);
+                    let path = line.split(' ').nth(1).unwrap_or("/");
+                    break path.trim_start_matches('/').parse::<usize>().unwrap_or(usize::MAX);
+                }
+            }
+            let mut tmp = [0u8; 2048];
+            match s.read(&mut tmp).await {
+                Ok(0) | Err(_) => {
+                    sh.borrow_mut().conns[cid].open = false;
+                    nt.notify_waiters();
+                    return;
+                }
+                Ok(n) => {
+                    if !half_closed {
+                        buf.extend_from_slice(&tmp[..n])
+                    }
+                }
+            }
+        };
+        let (script, target) = {
+            let mut g = sh.borrow_mut();
+            let first = g.conns[cid].reqs.is_empty();
+            g.conns[cid].reqs.push(id);
+            g.arrived.insert(id, (cid, first));
+            g.inflight += 1;
+            let target = if g.batch_n > 0 {
+                let j = g.batch_arrivals;
+                g.batch_arrivals += 1;
+                let l = g.batch_l.max(1);
+                let wave = j / l;
+                (g.batch_n.saturating_sub(wave * l)).min(l).max(1)
+            } else {
+                1
+            };
+            (g.scripts.get(&id).cloned(), target)
+        };
+        nt.notify_waiters();
+        // hold until the expected number of requests is in flight, then look at the world
+        if !wait_until(&sh, &nt, Duration::from_millis(4000), |g| g.inflight >= target).await {
+            sh.borrow_mut().stalls += 1;
+        }
+        turn(3).await;
+        if target > 1 {
+            tokio::time::sleep(Duration::from_millis(2)).await;
+        }
+        sh.borrow_mut().sample();
+        if target > 1 {
+            // let every member of the wave take its sample before the first response goes out
+            tokio::time::sleep(Duration::from_millis(2)).await;
+        }
+        let script = match script {
+            Some(s) => s,
+            None => Rc::new(Script { pre: vec![CANNED.to_vec()], ..Default::default() }),
+        };
+        for (i, seg) in script.pre.iter().enumerate() {
+            if i > 0 {
+                turn(2).await;
+            }
+            if s.write_all(seg).await.is_err() {
+                break;
+            }
+            let _ = s.flush().await;
+        }
+        sh.borrow_mut().inflight -= 1;
+        nt.notify_waiters();
+        if script.barrier {
+            if !wait_until(&sh, &nt, Duration::from_millis(6000), |g| g.client_done.contains(&id)).await {
+                sh.borrow_mut().stalls += 1;
+            }
+            for (i, seg) in script.post.iter().enumerate() {
+                if i > 0 {
+                    turn(2).await;
+                }
+                if s.write_all(seg).await.is_err() {
+                    break;
+                }
+                let _ = s.flush().await;
+            }
+        }
+        if script.close {
+            let _ = s.shutdown().await;
+            half_closed = true;
+        }
+        sh.borrow_mut().script_done.insert(id);
+        nt.notify_waiters();
+    }
+}
+
+async fn accept_loop(sh: Sh, nt: Rc<Notify>, l: TcpListener, auth: usize) {
+    loop {
+        match l.accept().await {
+            Ok((s, _)) => {
+                let cid = {
+                    let mut g = sh.borrow_mut();
+                    g.conns.push(ConnInfo { auth, open: true, reqs: vec![] });
+                    g.conns.len() - 1
+                };
+                actix_rt::spawn(serve_conn(sh.clone(), nt.clone(), s, cid));
+            }
+            Err(_) => return,
+        }
+    }
+}
+
+// ---------------------------------------------------------------------------------------------
+// client side (the code under test)
+
+fn send_err(e: &awc::error::SendRequestError) -> String {
+    use actix_http::error::ParseError as P;
+    use awc::error::{ConnectError as C, SendRequestError as S};
+    match e {
+        S::Connect(C::Disconnected) => "disc".into(),
+        S::Connect(C::Timeout) => "ctimeout".into(),
+        S::Connect(C::Io(_)) => "cio".into(),
+        S::Connect(_) => "connect".into(),
+        S::Send(_) => "send".into(),
+        S::Response(P::Io(_)) => "pio".into(),
+        S::Response(P::Header) => "phdr".into(),
+        S::Response(P::Status) => "pstatus".into(),
+        S::Response(P::Version) => "pversion".into(),
+        S::Response(P::TooLarge) => "ptoolarge".into(),
+        S::Response(P::Incomplete) => "pincomplete".into(),
+        S::Response(_) => "pother".into(),
+        S::Timeout => "timeout".into(),
+        _ => "other".into(),
+    }
+}
+
+fn payload_err(e: &actix_http::error::PayloadError) -> String {
+    use actix_http::error::PayloadError as E;
+    match e {
+        E::Incomplete(None) => "inc".into(),
+        E::Incomplete(Some(_)) => "io".into(),
+        E::Overflow => "ovf".into(),
+        E::EncodingCorrupted => "enc".into(),
+        E::UnknownLength => "unk".into(),
+        E::Io(e) if e.kind() == std::io::ErrorKind::TimedOut => "timeout".into(),
+        E::Io(_) => "pio".into(),
+        _ => "other".into(),
+    }
+}
+
+#[derive(Clone, Debug)]
+enum Outcome {
+    Body(u16, Vec<u8>),
+    BodyErr(u16, String),
+    Dropped(u16),
+    SendErr(String),
+}
+
+impl Outcome {
+    fn show(&self) -> String {
+        match self {
+            Outcome::Body(s, b) => format!("S{},B{}", s, hex(b)),
+            Outcome::BodyErr(s, e) => format!("S{},E{}", s, e),
+            Outcome::Dropped(s) => format!("S{},D", s),
+            Outcome::SendErr(e) => format!("X{}", e),
+        }
+    }
+}
+
+const T_REQ: Duration = Duration::from_secs(8);
+
+async fn one_request(client: &awc::Client, url: String, meth: Meth, mode: Mode) -> Outcome {
+    let req = match meth {
+        Meth::Get => client.get(url),
+        Meth::Head => client.head(url),
+        Meth::GetClose => client.get(url).force_close(),
+    };
+    let mut resp = match tokio::time::timeout(T_REQ, req.send()).await {
+        Err(_) => return Outcome::SendErr("timeout".into()),
+        Ok(Err(e)) => return Outcome::SendErr(send_err(&e)),
+        Ok(Ok(r)) => r,
+    };
+    let status = resp.status().as_u16();
+    match mode {
+        Mode::Full => match tokio::time::timeout(T_REQ, resp.body().limit(16 << 20)).await {
+            Err(_) => Outcome::BodyErr(status, "timeout".into()),
+            Ok(Ok(b)) => Outcome::Body(status, b.to_vec()),
+            Ok(Err(e)) => Outcome::BodyErr(status, payload_err(&e)),
+        },
+        Mode::Part(k) => {
+            let mut got: Vec<u8> = Vec::new();
+            while got.len() < k {
+                match tokio::time::timeout(T_REQ, resp.next()).await {
+                    Err(_) => return Outcome::BodyErr(status, "timeout".into()),
+                    Ok(None) => return Outcome::Body(status, got),
+                    Ok(Some(Ok(b))) => got.extend_from_slice(&b),
+                    Ok(Some(Err(e))) => return Outcome::BodyErr(status, payload_err(&e)),
+                }
+            }
+            Outcome::Dropped(status)
+        }
+    }
+    // `resp` (and with it the connection, unless it was released) is dropped here
+}
+
+struct OpObs {
+    id: usize,
+    auth: usize,
+    meth: Meth,
+    mode: Mode,
+    script: Script,
+    outcome: Outcome,
+}
+
+struct Obs {
+    out: String,
+    limit: usize,
+    ops: Vec<OpObs>,
+    conns: Vec<ConnInfo>,
+    samples: Vec<Sample>,
+    post_open: Vec<usize>,
+    stalls: usize,
+    par_ok: bool,
+}
+
+async fn settle(sh: &Sh) -> usize {
+    // same thread as the servers: a couple of scheduler turns deliver every pending close
+    let mut last = usize::MAX;
+    let mut same = 0;
+    for _ in 0..50 {
+        turn(3).await;
+        let cur = sh.borrow().open();
+        if cur == last {
+            same += 1;
+            if same >= 2 {
+                break;
+            }
+        } else {
+            same = 0;
+            last = cur;
+        }
+        tokio::time::sleep(Duration::from_millis(1)).await;
+    }
+    last
+}
+
+async fn run_case(case: Case) -> Obs {
+    let sh: Sh = Rc::new(RefCell::new(Shared::default()));
+    let nt = Rc::new(Notify::new());
+    let mut ports = [0u16; 2];
+    for (auth, port) in ports.iter_mut().enumerate() {
+        let l = TcpListener::bind("127.0.0.1:0").await.expect("bind");
+        *port = l.local_addr().unwrap().port();
+        actix_rt::spawn(accept_loop(sh.clone(), nt.clone(), l, auth));
+    }
+    let mut connector = awc::Connector::new().limit(case.limit).timeout(Duration::from_secs(8));
+    if case.ka0 {
+        connector = connector.conn_keep_alive(Duration::ZERO);
+    }
+    if case.life0 {
+        connector = connector.conn_lifetime(Duration::ZERO);
+    }
+    let client = awc::Client::builder()
+        .connector(connector)
+        .timeout(Duration::from_secs(6))
+        .disable_redirects()
+        .finish();
+
+    let mut toks: Vec<String> = Vec::new();
+    let mut ops: Vec<OpObs> = Vec::new();
+    let mut post_open = Vec::new();
+    let mut par_ok = true;
+    for (i, op) in case.ops.iter().enumerate() {
+        match op {
+            Op::Bad => toks.push("bad-op".into()),
+            Op::Req { auth, meth, mode, script } => {
+                let id = i * 64;
+                sh.borrow_mut().scripts.insert(id, Rc::new(script.clone()));
+                let url = format!("http://127.0.0.1:{}/{}", ports[*auth], id);
+                let outcome = one_request(&client, url, *meth, *mode).await;
+                sh.borrow_mut().client_done.insert(id);
+                nt.notify_waiters();
+                let arrived = sh.borrow().arrived.get(&id).cloned();
+                if arrived.is_some() {
+                    if !wait_until(&sh, &nt, Duration::from_secs(8), |g| g.script_done.contains(&id)).await {
+                        sh.borrow_mut().stalls += 1;
+                    }
+                }
+                // std::time::Instant is what the pool compares: make sure it moves between ops
+                if case.ka0 || case.life0 {
+                    tokio::time::sleep(Duration::from_millis(2)).await;
+                }
+                let open = settle(&sh).await;
+                post_open.push(open);
+                let c = match arrived {
+                    None => 'x',
+                    Some((_, true)) => 'n',
+                    Some((_, false)) => 'u',
+                };
+                toks.push(format!("{}{};o={}", c, outcome.show(), open));
+                ops.push(OpObs { id, auth: *auth, meth: *meth, mode: *mode, script: script.clone(), outcome });
+            }
+            Op::Par(auths) => {
+                {
+                    let mut g = sh.borrow_mut();
+                    g.batch_n = auths.len();
+                    g.batch_l = if case.limit == 0 { auths.len() } else { case.limit };
+                    g.batch_arrivals = 0;
+                }
+                let mut handles = Vec::new();
+                for (j, a) in auths.iter().enumerate() {
+                    let id = i * 64 + 1 + j;
+                    let url = format!("http://127.0.0.1:{}/{}", ports[*a], id);
+                    let client = client.clone();
+                    handles.push(actix_rt::spawn(async move {
+                        one_request(&client, url, Meth::Get, Mode::Full).await
+                    }));
+                    // deterministic FIFO order at the semaphore
+                    turn(1).await;
+                }
+                let mut ok = 0;
+                for h in handles {
+                    if let Ok(Outcome::Body(200, b)) = h.await {
+                        if b == b"ok" {
+                            ok += 1;
+                        }
+                    }
+                }
+                if ok != auths.len() {
+                    par_ok = false;
+                }
+                let (mut new, mut reused) = (0, 0);
+                {
+                    let mut g = sh.borrow_mut();
+                    for j in 0..auths.len() {
+                        match g.arrived.get(&(i * 64 + 1 + j)) {
+                            Some((_, true)) => new += 1,
+                            Some((_, false)) => reused += 1,
+                            None => {}
+                        }
+                    }
+                    g.batch_n = 0;
+                }
+                if case.ka0 || case.life0 {
+                    tokio::time::sleep(Duration::from_millis(2)).await;
+                }
+                let open = settle(&sh).await;
+                post_open.push(open);
+                toks.push(format!("P{},{},{};o={}", new, reused, ok, open));
+            }
+        }
+    }
+    let g = sh.borrow();
+    let mo = g.samples.iter().map(|s| s.open).chain(post_open.iter().cloned()).max().unwrap_or(0);
+    let mi = g.samples.iter().map(|s| s.inflight).max().unwrap_or(0);
+    toks.push(format!("mo={},mi={}", mo, mi));
+    if g.stalls > 0 {
+        toks.push(format!("STALL{}", g.stalls));
+    }
+    Obs {
+        out: toks.join(" "),
+        limit: case.limit,
+        ops,
+        conns: g.conns.clone(),
+        samples: g.samples.clone(),
+        post_open,
+        stalls: g.stalls,
+        par_ok,
+    }
+}
+
+// ---------------------------------------------------------------------------------------------
+// independent oracle: a whole-buffer reference reading of the bytes the server sent
+// (RFC 7230 §3.3.3 for responses), never the model, never the client's own decoder.
+
+#[derive(Debug, Clone, PartialEq)]
+enum Framing {
+    NoBody,
+    Length(u64),
+    Chunked,
+    UntilClose,
+}
+
+#[derive(Debug, Clone)]
+struct RefMsg {
+    version11: bool,
+    framing: Framing,
+    /// the framed body, if the stream reaches the framed end
+    body: Option<Vec<u8>>,
+    /// bytes of the stream beyond the framed end
+    surplus: usize,
+    conn_close: bool,
+    /// the last `Connection` header line is exactly `close`
+    conn_close_plain: bool,
+    conn_keep_alive: bool,
+    /// `Upgrade: websocket` on a response that is not 101
+    upgrade_ws_non101: bool,
+}
+
+#[derive(Debug, Clone)]
+enum RefRead {
+    /// the stream ends before the head is complete
+    HeadIncomplete,
+    /// the head cannot be framed (conflicting / invalid framing headers) or the chunk syntax is broken
+    Malformed,
+    Msg(RefMsg),
+}
+
+fn trim(v: &[u8]) -> &[u8] {
+    let mut v = v;
+    while let [b' ' | b'\t', rest @ ..] = v {
+        v = rest;
+    }
+    while let [rest @ .., b' ' | b'\t'] = v {
+        v = rest;
+    }
+    v
+}
+
+/// strict chunked reading: `None` = syntax broken, `Some((body, end))` with `end = None` if truncated
+fn ref_chunked(b: &[u8]) -> Option<(Vec<u8>, Option<usize>)> {
+    let mut i = 0;
+    let mut body = Vec::new();
+    loop {
+        // chunk-size line
+        let mut size: u128 = 0;
+        let mut digits = 0;
+        loop {
+            match b.get(i) {
+                None => return Some((body, None)),
+                Some(c) if c.is_ascii_hexdigit() => {
+                    size = size * 16 + (*c as char).to_digit(16).unwrap() as u128;
+                    if size > u64::MAX as u128 {
+                        return None;
+                    }
+                    digits += 1;
+                    i += 1;
+                }
+                Some(_) => break,
+            }
+        }
+        if digits == 0 {
+            return None;
+        }
+        // optional extension up to CR
+        if b.get(i) == Some(&b';') {
+            while let Some(c) = b.get(i) {
+                if *c == b'\r' {
+                    break;
+                }
+                if *c < 0x20 && *c != b'\t' || *c == 0x7f {
+                    return None;
+                }
+                i += 1;
+            }
+        }
+        match (b.get(i), b.get(i + 1)) {
+            (None, _) => return Some((body, None)),
+            (Some(b'\r'), None) => return Some((body, None)),
+            (Some(b'\r'), Some(b'\n')) => i += 2,
+            _ => return None,
+        }
+        if size == 0 {
+            // no trailers supported by the code under test: last-chunk is followed by CRLF
+            return match (b.get(i), b.get(i + 1)) {
+                (None, _) | (Some(b'\r'), None) => Some((body, None)),
+                (Some(b'\r'), Some(b'\n')) => Some((body, Some(i + 2))),
+                _ => None,
+            };
+        }
+        let size = size as usize;
+        if b.len() - i < size {
+            body.extend_from_slice(&b[i..]);
+            return Some((body, None));
+        }
+        body.extend_from_slice(&b[i..i + size]);
+        i += size;
+        match (b.get(i), b.get(i + 1)) {
+            (None, _) | (Some(b'\r'), None) => return Some((body, None)),
+            (Some(b'\r'), Some(b'\n')) => i += 2,
+            _ => return None,
+        }
+    }
+}
+
+fn reference(stream: &[u8], head_request: bool) -> RefRead {
+    let Some(pos) = find(stream, b"\r\n\r\n") else {
+        return RefRead::HeadIncomplete;
+    };
+    let head = &stream[..pos];
+    let rest = &stream[pos + 4..];
+    let mut lines = head.split(|c| *c == b'\n').map(|l| l.strip_suffix(b"\r").unwrap_or(l));
+    let status_line = lines.next().unwrap_or(b"");
+    if status_line.len() < 12 || !status_line.starts_with(b"HTTP/1.") {
+        return RefRead::Malformed;
+    }
+    let version11 = status_line[7] == b'1';
+    let status101 = &status_line[9..12] == b"101";
+    let mut upgrade_ws = false;
+    let mut cl: Vec<Vec<u8>> = Vec::new();
+    let mut te: Vec<Vec<u8>> = Vec::new();
+    let mut conn: Vec<Vec<u8>> = Vec::new();
+    for l in lines {
+        let Some(c) = l.iter().position(|c| *c == b':') else {
+            return RefRead::Malformed;
+        };
+        let name = l[..c].to_ascii_lowercase();
+        let val = trim(&l[c + 1..]).to_ascii_lowercase();
+        match name.as_slice() {
+            b"content-length" => cl.push(val),
+            b"transfer-encoding" => te.push(val),
+            b"connection" => conn.push(val),
+            b"upgrade" => upgrade_ws |= val == b"websocket",
+            _ => {}
+        }
+    }
+    let conn_close = conn.iter().any(|v| v.split(|c| *c == b',').any(|t| trim(t) == b"close"));
+    let conn_keep_alive = conn.iter().any(|v| v.split(|c| *c == b',').any(|t| trim(t) == b"keep-alive"));
+    let conn_close_plain = conn.last().map(|v| v.as_slice() == b"close").unwrap_or(false);
+    let upgrade_ws_non101 = upgrade_ws && !status101;
+    let framing = if head_request {
+        Framing::NoBody
+    } else if status101 {
+        // not an HTTP body: whatever follows belongs to the upgraded protocol, up to the close
+        Framing::UntilClose
+    } else if version11 && !te.is_empty() {
+        if te.len() == 1 && te[0] == b"chunked" {
+            Framing::Chunked
+        } else if te.len() == 1 && te[0] == b"identity" {
+            // not a transfer coding any more (RFC 7230 dropped it); the code under test lets
+            // Content-Length (or nothing) decide — follow RFC 2616 here
+            match cl.as_slice() {
+                [] => Framing::NoBody,
+                [v] => match std::str::from_utf8(v).ok().and_then(|s| if s.bytes().all(|c| c.is_ascii_digit()) { s.parse::<u64>().ok() } else { None }) {
+                    Some(n) => Framing::Length(n),
+                    None => return RefRead::Malformed,
+                },
+                _ => return RefRead::Malformed,
+            }
+        } else {
+            return RefRead::Malformed;
+        }
+    } else {
+        match cl.as_slice() {
+            [] => {
+                if version11 {
+                    Framing::NoBody
+                } else {
+                    Framing::UntilClose
+                }
+            }
+            [v] => match std::str::from_utf8(v).ok().and_then(|s| if !s.is_empty() && s.bytes().all(|c| c.is_ascii_digit()) { s.parse::<u64>().ok() } else { None }) {
+                Some(n) => Framing::Length(n),
+                None => return RefRead::Malformed,
+            },
+            _ => return RefRead::Malformed,
+        }
+    };
+    let (body, surplus) = match framing {
+        Framing::NoBody => (Some(vec![]), rest.len()),
+        Framing::Length(0) => (Some(vec![]), rest.len()),
+        Framing::Length(n) => {
+            if (rest.len() as u64) >= n {
+                (Some(rest[..n as usize].to_vec()), rest.len() - n as usize)
+            } else {
+                (None, 0)
+            }
+        }
+        Framing::Chunked => match ref_chunked(rest) {
+            None => return RefRead::Malformed,
+            Some((b, Some(end))) => (Some(b), rest.len() - end),
+            Some((_, None)) => (None, 0),
+        },
+        Framing::UntilClose => (Some(rest.to_vec()), 0),
+    };
+    RefRead::Msg(RefMsg { version11, framing, body, surplus, conn_close, conn_close_plain, conn_keep_alive, upgrade_ws_non101 })
+}
+
+fn oracle(o: &Obs) -> Option<(String, String)> {
+    if o.stalls > 0 {
+        return Some(("harness-stall".into(), format!("{} hold/barrier time-outs", o.stalls)));
+    }
+    // (1) complete body or error
+    let mut refs: HashMap<usize, (RefRead, &OpObs)> = HashMap::new();
+    for op in &o.ops {
+        let mut stream: Vec<u8> = Vec::new();
+        for s in op.script.pre.iter().chain(op.script.post.iter()) {
+            stream.extend_from_slice(s);
+        }
+        let r = reference(&stream, op.meth == Meth::Head);
+        if let Outcome::Body(_, got) = &op.outcome {
+            match &r {
+                RefRead::HeadIncomplete => {
+                    return Some(("response-without-head".into(), format!("request {} delivered a response although the head never completed", op.id)))
+                }
+                RefRead::Malformed => {
+                    return Some(("accepted-malformed-framing".into(), format!("request {}: Ok({}) for a stream whose framing is invalid", op.id, hex(got))))
+                }
+                RefRead::Msg(m) => match &m.body {
+                    None => {
+                        return Some((
+                            "short-body-clean-end".into(),
+                            format!("request {}: connection ended before the framed end ({:?}) but body() returned Ok({})", op.id, m.framing, hex(got)),
+                        ))
+                    }
+                    Some(b) if b != got => {
+                        let sig = if m.upgrade_ws_non101 && got.is_empty() && matches!(m.framing, Framing::Length(_)) {
+                            "non-101-upgrade-websocket-drops-content-length-body"
+                        } else {
+                            "body-mismatch"
+                        };
+                        return Some((sig.into(), format!("request {}: framed body {} delivered {}", op.id, hex(b), hex(got))));
+                    }
+                    Some(_) => {
+                        if m.framing == Framing::UntilClose && !op.script.close {
+                            return Some(("until-close-ended-without-close".into(), format!("request {}", op.id)));
+                        }
+                    }
+                },
+            }
+        }
+        // liveness side of "complete or error": a complete, well-formed response whose body the
+        // caller asked for in full must be delivered, not refused (an implementation that always
+        // errors would satisfy the first half vacuously)
+        if let (RefRead::Msg(m), Mode::Full) = (&r, op.mode) {
+            let complete = m.body.is_some() && (m.framing != Framing::UntilClose || op.script.close);
+            if complete && !m.upgrade_ws_non101 {
+                match &op.outcome {
+                    Outcome::BodyErr(_, e) | Outcome::SendErr(e) => {
+                        return Some((
+                            "error-on-complete-well-formed-response".into(),
+                            format!("request {}: {:?} body {} was sent completely but the client reported {}", op.id, m.framing, hex(m.body.as_ref().unwrap()), e),
+                        ))
+                    }
+                    _ => {}
+                }
+            }
+        }
+        refs.insert(op.id, (r, op));
+    }
+    // (2) a socket carries a further request only after a complete exchange on a persistent connection
+    for (cid, c) in o.conns.iter().enumerate() {
+        for w in c.reqs.windows(2) {
+            let Some((r, op)) = refs.get(&w[0]) else { continue }; // canned exchanges of a batch are complete
+            let why = match r {
+                RefRead::HeadIncomplete | RefRead::Malformed => Some(("reused-unfinished-connection", "previous response was never complete")),
+                RefRead::Msg(m) => {
+                    // nothing to read after the head ⇒ the exchange is complete whatever the caller does
+                    let read_to_end = matches!(op.outcome, Outcome::Body(..))
+                        || matches!(m.framing, Framing::NoBody | Framing::Length(0));
+                    if m.body.is_none() {
+                        Some(("reused-unfinished-connection", "previous response ended before its framed end"))
+                    } else if !read_to_end {
+                        Some(("reused-unfinished-connection", "previous body was dropped / failed before its end"))
+                    } else if m.conn_close && !m.conn_close_plain {
+                        Some(("reused-after-close-in-multi-valued-connection-header", "previous response carried the close option among several Connection values"))
+                    } else if m.framing == Framing::UntilClose || m.conn_close || op.meth == Meth::GetClose {
+                        Some(("reused-nonpersistent-connection", "previous exchange said close"))
+                    } else if !m.version11 && !m.conn_keep_alive {
+                        Some(("reused-http10-connection-without-keep-alive", "previous response was HTTP/1.0 without keep-alive"))
+                    } else if m.surplus > 0 && op.script.barrier {
+                        Some(("reused-tainted-connection", "unread bytes of the previous exchange were in the socket"))
+                    } else {
+                        None
+                    }
+                }
+            };
+            if let Some((sig, what)) = why {
+                return Some((sig.into(), format!("socket {} carried request {} after request {}: {}", cid, w[1], w[0], what)));
+            }
+        }
+    }
+    // (3) bounds
+    if !o.par_ok {
+        return Some(("batch-request-failed".into(), "a well-formed concurrent exchange did not deliver its body".into()));
+    }
+    if o.limit > 0 {
+        for s in &o.samples {
+            if s.inflight > o.limit {
+                return Some(("inflight-exceeds-limit".into(), format!("{} requests in flight, limit {}", s.inflight, o.limit)));
+            }
+        }
+        for s in &o.samples {
+            if s.per_auth.iter().any(|n| *n > o.limit) {
+                return Some(("open-sockets-exceed-limit-same-authority".into(), format!("{:?} sockets open per authority, limit {}", s.per_auth, o.limit)));
+            }
+        }
+        for s in &o.samples {
+            if s.open > o.limit {
+                return Some((
+                    "open-sockets-exceed-limit-idle-other-authority".into(),
+                    format!("{} sockets open ({:?} per authority, {} requests in flight), limit {}", s.open, s.per_auth, s.inflight, o.limit),
+                ));
+            }
+        }
+        if let Some(m) = o.post_open.iter().max() {
+            if *m > o.limit {
+                return Some(("open-sockets-exceed-limit-idle-other-authority".into(), format!("{} idle sockets open, limit {}", m, o.limit)));
+            }
+        }
+    }
+    None
+}
+
+fn run(line: &str) -> CaseResult {
+    let case = parse_case(line);
+    let obs = block_on_system(run_case(case));
+    let mut r = CaseResult::ok(obs.out.clone());
+    r.nontrivial = obs.ops.iter().any(|o| !matches!(o.outcome, Outcome::SendErr(_)));
+    for op in &obs.ops {
+        r.tags.push(
+            match &op.outcome {
+                Outcome::Body(..) => "body-ok",
+                Outcome::BodyErr(..) => "body-err",
+                Outcome::Dropped(..) => "dropped-early",
+                Outcome::SendErr(_) => "head-err",
+            }
+            .to_owned(),
+        );
+    }
+    for c in &obs.conns {
+        r.tags.push(if c.reqs.len() > 1 { "socket-reused" } else { "socket-single-use" }.to_owned());
+    }
+    if obs.samples.iter().any(|s| s.inflight > 1) {
+        r.tags.push("concurrent".to_owned());
+    }
+    if let Some((sig, detail)) = oracle(&obs) {
+        r = r.fail(&sig, detail);
+    }
+    r
+}
+
+// ---------------------------------------------------------------------------------------------
+// generator
+
+#[derive(Clone, Debug)]
+enum Fr {
+    None,
+    Len(Vec<u8>),
+    Chunked(Vec<Vec<u8>>, bool), // chunks, with extensions / upper-case hex
+    Close(Vec<u8>),
+}
+
+#[derive(Clone, Debug)]
+struct Resp {
+    v11: bool,
+    status: u16,
+    fr: Fr,
+    conn: Option<&'static str>,
+    extra: Vec<&'static str>,
+}
+
+impl Resp {
+    fn bytes(&self) -> Vec<u8> {
+        let mut o = Vec::new();
+        let reason = match self.status {
+            200 => "OK",
+            204 => "No Content",
+            404 => "Not Found",
+            500 => "Internal Server Error",
+            _ => "X",
+        };
+        o.extend_from_slice(format!("HTTP/1.{} {} {}\r\n", self.v11 as u8, self.status, reason).as_bytes());
+        for h in &self.extra {
+            o.extend_from_slice(h.as_bytes());
+            o.extend_from_slice(b"\r\n");
+        }
+        if let Some(c) = self.conn {
+            o.extend_from_slice(format!("connection: {}\r\n", c).as_bytes());
+        }
+        match &self.fr {
+            Fr::None | Fr::Close(_) => {}
+            Fr::Len(b) => o.extend_from_slice(format!("Content-Length: {}\r\n", b.len()).as_bytes()),
+            Fr::Chunked(..) => o.extend_from_slice(b"transfer-encoding: chunked\r\n"),
+        }
+        o.extend_from_slice(b"\r\n");
+        match &self.fr {
+            Fr::None => {}
+            Fr::Len(b) | Fr::Close(b) => o.extend_from_slice(b),
+            Fr::Chunked(cs, fancy) => {
+                for (i, c) in cs.iter().enumerate() {
+                    if c.is_empty() {
+                        continue;
+                    }
+                    if *fancy && i % 2 == 0 {
+                        o.extend_from_slice(format!("{:X};n=v{}\r\n", c.len(), i).as_bytes());
+                    } else if *fancy {
+                        o.extend_from_slice(format!("0{:x}\r\n", c.len()).as_bytes());
+                    } else {
+                        o.extend_from_slice(format!("{:x}\r\n", c.len()).as_bytes());
+                    }
+                    o.extend_from_slice(c);
+                    o.extend_from_slice(b"\r\n");
+                }
+                o.extend_from_slice(b"0\r\n\r\n");
+            }
+        }
+        o
+    }
+    /// the client reads this response until the server closes (HTTP/1.0 without Content-Length)
+    fn until_close(&self) -> bool {
+        match &self.fr {
+            Fr::Close(_) => true,
+            Fr::None => !self.v11,
+            _ => false,
+        }
+    }
+    fn must_close(&self) -> bool {
+        self.until_close() || self.conn == Some("close")
+    }
+}
+
+fn segs_hex(segs: &[Vec<u8>]) -> String {
+    let v: Vec<String> = segs.iter().filter(|s| !s.is_empty()).map(|s| hex0(s)).collect();
+    if v.is_empty() {
+        "-".into()
+    } else {
+        v.join("|")
+    }
+}
+
+fn split_at_points(b: &[u8], pts: &[usize]) -> Vec<Vec<u8>> {
+    let mut out = Vec::new();
+    let mut last = 0;
+    for &p in pts {
+        let p = p.min(b.len());
+        if p > last {
+            out.push(b[last..p].to_vec());
+            last = p;
+        }
+    }
+    if last < b.len() {
+        out.push(b[last..].to_vec());
+    }
+    out
+}
+
+fn rand_split(rng: &mut Rng, b: &[u8]) -> Vec<Vec<u8>> {
+    match rng.below(5) {
+        0 => vec![b.to_vec()],
+        1 if b.len() <= 120 => b.iter().map(|c| vec![*c]).collect(),
+        _ => {
+            let k = rng.range(1, 4);
+            let mut pts: Vec<usize> = (0..k).map(|_| rng.below(b.len() + 1)).collect();
+            pts.sort();
+            split_at_points(b, &pts)
+        }
+    }
+}
+
+fn script_tok(pre: &[Vec<u8>], post: Option<&[Vec<u8>]>, close: bool) -> String {
+    let mut s = segs_hex(pre);
+    if let Some(p) = post {
+        s.push('/');
+        s.push_str(&segs_hex(p));
+    }
+    s.push('.');
+    s.push(if close { 'c' } else { 'k' });
+    s
+}
+
+fn req_tok(auth: usize, meth: char, mode: &str, script: &str) -> String {
+    format!("r:{}:{}:{}:{}", if auth == 0 { 'a' } else { 'b' }, meth, mode, script)
+}
+
+fn body_bytes(rng: &mut Rng, n: usize) -> Vec<u8> {
+    (0..n).map(|_| b"abcdefghijklmnopqrstuvwxyz0123456789\r\n"[rng.below(38)]).collect()
+}
+
+fn rand_resp(rng: &mut Rng) -> Resp {
+    let v11 = !rng.chance(1, 5);
+    let n = match rng.below(8) {
+        0 => 0,
+        1 => 1,
+        2 => rng.range(2, 40),
+        3 => rng.range(2, 40),
+        4 => rng.range(40, 300),
+        5 => 16,
+        6 => rng.range(2, 20),
+        _ => 5,
+    };
+    let body = body_bytes(rng, n);
+    let fr = if v11 {
+        match rng.below(7) {
+            0 => Fr::None,
+            1 | 2 | 3 => Fr::Len(body),
+            _ => {
+                let mut cs = Vec::new();
+                let mut rest = &body[..];
+                while !rest.is_empty() {
+                    let k = rng.range(1, rest.len().min(17));
+                    cs.push(rest[..k].to_vec());
+                    rest = &rest[k..];
+                }
+                Fr::Chunked(cs, rng.chance(1, 3))
+            }
+        }
+    } else {
+        match rng.below(3) {
+            0 => Fr::Close(body),
+            _ => Fr::Len(body),
+        }
+    };
+    let conn = match rng.below(10) {
+        0 => Some("close"),
+        1 => Some("keep-alive"),
+        2 => Some("Close"),
+        3 => Some("Keep-Alive"),
+        4 if v11 => Some("x-other"),
+        _ => None,
+    };
+    let extra = match rng.below(4) {
+        0 => vec!["server: s", "x-a: b"],
+        1 => vec!["content-type: text/plain"],
+        _ => vec![],
+    };
+    Resp { v11, status: *rng.pick(&[200, 200, 200, 404, 500]), fr, conn, extra }
+}
+
+const GOOD: &str = "485454502f312e3120323030204f4b0d0a636f6e74656e742d6c656e6774683a20320d0a0d0a6f6b"; // 200, CL 2, "ok"
+
+fn good_follow(auth: usize) -> String {
+    req_tok(auth, 'g', "f", &format!("{}.k", GOOD))
+}
+
+fn gen(ctx: &Ctx) -> Vec<String> {
+    let mut rng = Rng::new(ctx.seed ^ 0xC17);
+    let mut cases: Vec<String> = Vec::new();
+    let thorough = ctx.tier != Tier::Quick;
+
+    // (A) close at every byte offset of head and body, for every framing
+    let bases: Vec<(Resp, char)> = vec![
+        (Resp { v11: true, status: 200, fr: Fr::Len(b"hello".to_vec()), conn: None, extra: vec![] }, 'g'),
+        (Resp { v11: true, status: 200, fr: Fr::Chunked(vec![b"abc".to_vec(), b"de".to_vec(), b"0123456789abcdefX".to_vec()], true), conn: None, extra: vec![] }, 'g'),
+        (Resp { v11: true, status: 200, fr: Fr::Chunked(vec![b"wxyz".to_vec()], false), conn: Some("close"), extra: vec![] }, 'g'),
+        (Resp { v11: true, status: 200, fr: Fr::Chunked(vec![b"0123456789".to_vec(), b"abcdefghijklmno".to_vec(), b"ABCDEFGHIJKL".to_vec(), b"-".to_vec()], true), conn: None, extra: vec![] }, 'g'),
+        (Resp { v11: false, status: 200, fr: Fr::Close(b"hello".to_vec()), conn: None, extra: vec![] }, 'g'),
+        (Resp { v11: false, status: 200, fr: Fr::Len(b"hey".to_vec()), conn: Some("keep-alive"), extra: vec![] }, 'g'),
+        (Resp { v11: true, status: 204, fr: Fr::None, conn: None, extra: vec!["x-a: b"] }, 'g'),
+        (Resp { v11: true, status: 200, fr: Fr::Len(vec![]), conn: None, extra: vec![] }, 'g'),
+        (Resp { v11: true, status: 200, fr: Fr::Len(b"head!".to_vec()), conn: None, extra: vec![] }, 'h'),
+    ];
+    for (resp, meth) in &bases {
+        let full = resp.bytes();
+        for t in 0..=full.len() {
+            let cut = &full[..t];
+            // whole, then a follow-up request to the same authority
+            let whole = req_tok(0, *meth, "f", &script_tok(&[cut.to_vec()], None, true));
+            cases.push(format!("lim=1 {} {}", whole, good_follow(0)));
+            // two segments, server keeps the socket open when the exchange is complete
+            // (nothing may follow the segment that completes the exchange: for HEAD that is the head)
+            let head_len = find(&full, b"\r\n\r\n").map(|p| p + 4).unwrap_or(full.len());
+            let p = if *meth == 'h' { rng.below(t.min(head_len) + 1) } else { rng.below(t + 1) };
+            let two = split_at_points(cut, &[p]);
+            let complete = t == full.len();
+            let tok = req_tok(0, *meth, "f", &script_tok(&two, None, !complete || resp.until_close()));
+            cases.push(format!("lim=1 {} {} {}", tok, good_follow(0), good_follow(0)));
+            if thorough || t % 3 == 0 {
+                let ones: Vec<Vec<u8>> = cut.iter().map(|c| vec![*c]).collect();
+                let tok = req_tok(0, *meth, "f", &script_tok(&ones, None, true));
+                cases.push(format!("lim=2 {} {}", tok, good_follow(0)));
+            }
+        }
+    }
+
+    // (B) leftover bytes after a complete response
+    let forged = b"HTTP/1.1 200 OK\r\ncontent-length: 4\r\n\r\nEVIL".to_vec();
+    let lefts: Vec<Vec<u8>> = vec![b"x".to_vec(), b"\r\n".to_vec(), b"0\r\n\r\n".to_vec(), forged.clone(), b"HTTP/1.1 200 OK\r\n".to_vec()];
+    for _ in 0..ctx.budget(160) {
+        let mut resp = rand_resp(&mut rng);
+        if resp.must_close() && rng.chance(2, 3) {
+            resp.conn = None;
+            if let Fr::Close(b) = &resp.fr {
+                resp.fr = Fr::Len(b.clone());
+            }
+        }
+        let full = resp.bytes();
+        let left = rng.pick(&lefts).clone();
+        let meth = if rng.chance(1, 8) { 'h' } else { 'g' };
+        // a read-until-close response has no "after the exchange" before the close
+        let until_close = resp.until_close() && meth != 'h';
+        let close = rng.chance(1, 4) || until_close;
+        let tok = if rng.chance(1, 2) || until_close {
+            // same segment as the last byte of the response
+            let mut segs = if meth == 'h' { vec![full.clone()] } else { rand_split(&mut rng, &full) };
+            if segs.is_empty() {
+                segs.push(vec![]);
+            }
+            segs.last_mut().unwrap().extend_from_slice(&left);
+            script_tok(&segs, None, close)
+        } else {
+            let segs = if meth == 'h' { vec![full.clone()] } else { rand_split(&mut rng, &full) };
+            script_tok(&segs, Some(&[left]), close)
+        };
+        let lim = *rng.pick(&[1usize, 1, 2, 0]);
+        let mut c = format!("lim={} {}", lim, req_tok(0, meth, "f", &tok));
+        for _ in 0..rng.range(1, 3) {
+            c.push(' ');
+            c.push_str(&good_follow(if rng.chance(1, 6) { 1 } else { 0 }));
+        }
+        cases.push(c);
+    }
+
+    // (C) random sequences with early-dropped bodies, two authorities
+    for _ in 0..ctx.budget(700) {
+        let lim = *rng.pick(&[0usize, 1, 1, 2, 2, 3]);
+        let mut c = format!("lim={}", lim);
+        let mut evict = false;
+        if rng.chance(1, 12) {
+            c.push_str(" ka=0");
+            evict = true;
+        }
+        if rng.chance(1, 20) {
+            c.push_str(" life=0");
+            evict = true;
+        }
+        let two_auth = rng.chance(1, 2);
+        for _ in 0..rng.range(2, 7) {
+            let auth = if two_auth && rng.chance(1, 3) { 1 } else { 0 };
+            if rng.chance(1, 10) {
+                let mut n = rng.range(1, 5);
+                // with zero idle/lifetime limits the sockets closed by a second wave depend on the
+                // order in which the first wave's tasks finish: keep such batches to one wave
+                if evict && lim != 0 && n > lim {
+                    n = lim;
+                }
+                let same = rng.chance(2, 3);
+                let auths: String = (0..n)
+                    .map(|_| if same || lim == 0 || n <= lim { if same { 'a' } else if rng.chance(1, 2) { 'a' } else { 'b' } } else { 'a' })
+                    .collect();
+                // mixed authorities only when nobody has to wait for a permit
+                let auths = if !same && lim != 0 && n > lim { "a".repeat(n) } else { auths };
+                c.push_str(&format!(" par:{}", auths));
+                continue;
+            }
+            let resp = rand_resp(&mut rng);
+            let full = resp.bytes();
+            let blen = match &resp.fr {
+                Fr::None => 0,
+                Fr::Len(b) | Fr::Close(b) => b.len(),
+                Fr::Chunked(cs, _) => cs.iter().map(|c| c.len()).sum(),
+            };
+            let trunc = if rng.chance(1, 5) { Some(rng.below(full.len())) } else { None };
+            let bytes = match trunc {
+                Some(t) => full[..t].to_vec(),
+                None => full.clone(),
+            };
+            let meth = match rng.below(12) {
+                0 => 'h',
+                1 => 'c',
+                _ => 'g',
+            };
+            let segs = if meth == 'h' { vec![bytes.clone()] } else { rand_split(&mut rng, &bytes) };
+            let close = trunc.is_some() || (resp.until_close() && meth != 'h') || rng.chance(1, 6);
+            let mode = match rng.below(6) {
+                0 => "p0".to_owned(),
+                1 => format!("p{}", rng.range(0, blen + 1)),
+                2 if blen > 0 => format!("p{}", blen),
+                _ => "f".to_owned(),
+            };
+            c.push(' ');
+            c.push_str(&req_tok(auth, meth, &mode, &script_tok(&segs, None, close)));
+        }
+        cases.push(c);
+    }
+
+    // (D) concurrency above the limit
+    for lim in [1usize, 2, 3] {
+        for n in 1..=(lim + 3) {
+            cases.push(format!("lim={} par:{}", lim, "a".repeat(n)));
+            cases.push(format!("lim={} {} par:{} {}", lim, good_follow(0), "a".repeat(n), good_follow(0)));
+            cases.push(format!("lim={} {} par:{} {}", lim, good_follow(1), "a".repeat(n), good_follow(1)));
+        }
+    }
+    cases.push("lim=0 par:aaaaaa".into());
+    cases.push("lim=0 par:ababab par:bbaa".into());
+    cases.push("lim=4 par:abab par:ab".into());
+
+    // (E) header-level framing variants
+    let heads: Vec<(&str, &str)> = vec![
+        ("HTTP/1.1 200 OK\r\ncontent-length: 3\r\ncontent-length: 3\r\n\r\n", "abc"),
+        ("HTTP/1.1 200 OK\r\ncontent-length: +3\r\n\r\n", "abc"),
+        ("HTTP/1.1 200 OK\r\ncontent-length: 3x\r\n\r\n", "abc"),
+        ("HTTP/1.1 200 OK\r\ncontent-length: \r\n\r\n", "abc"),
+        ("HTTP/1.1 200 OK\r\ncontent-length:   3  \r\n\r\n", "abc"),
+        ("HTTP/1.1 200 OK\r\ncontent-length: 18446744073709551616\r\n\r\n", "abc"),
+        ("HTTP/1.1 200 OK\r\ncontent-length: 007\r\n\r\n", "abcdefg"),
+        ("HTTP/1.1 200 OK\r\ncontent-length: 9\r\ntransfer-encoding: chunked\r\n\r\n", "3\r\nabc\r\n0\r\n\r\n"),
+        ("HTTP/1.1 200 OK\r\ntransfer-encoding: chunked\r\ncontent-length: 9\r\n\r\n", "3\r\nabc\r\n0\r\n\r\n"),
+        ("HTTP/1.1 200 OK\r\nTransfer-Encoding: Chunked\r\n\r\n", "3\r\nabc\r\n0\r\n\r\n"),
+        ("HTTP/1.1 200 OK\r\ntransfer-encoding: identity\r\ncontent-length: 3\r\n\r\n", "abc"),
+        ("HTTP/1.1 200 OK\r\ntransfer-encoding: gzip\r\n\r\n", "abc"),
+        ("HTTP/1.1 200 OK\r\ntransfer-encoding: chunked\r\ntransfer-encoding: chunked\r\n\r\n", "0\r\n\r\n"),
+        ("HTTP/1.0 200 OK\r\ntransfer-encoding: chunked\r\n\r\n", "3\r\nabc\r\n0\r\n\r\n"),
+        ("HTTP/1.0 200 OK\r\ncontent-length: 3\r\n\r\n", "abc"),
+        ("HTTP/1.0 200 OK\r\ncontent-length: 3\r\nconnection: keep-alive\r\n\r\n", "abc"),
+        ("HTTP/1.1 200 OK\r\ncontent-length: 3\r\nconnection: close\r\n\r\n", "abc"),
+        ("HTTP/1.1 200 OK\r\ncontent-length: 3\r\nconnection: CLOSE  \r\n\r\n", "abc"),
+        ("HTTP/1.1 200 OK\r\ncontent-length: 3\r\nconnection: close\r\nconnection: keep-alive\r\n\r\n", "abc"),
+        ("HTTP/1.1 200 OK\r\ncontent-length: 3\r\nconnection: keep-alive\r\nconnection: close\r\n\r\n", "abc"),
+        ("HTTP/1.1 200 OK\r\ncontent-length: 3\r\nconnection: upgrade\r\n\r\n", "abc"),
+        ("HTTP/1.1 200 OK\r\ncontent-length: 3\r\nconnection: foo\r\n\r\n", "abc"),
+        ("HTTP/1.1 200 OK\r\ncontent-length: 3\r\nupgrade: websocket\r\n\r\n", "abc"),
+        ("HTTP/1.1 200 OK\r\ntransfer-encoding: chunked\r\n\r\n", "FFFFFFFFFFFFFFFF\r\nabc"),
+        ("HTTP/1.1 200 OK\r\ntransfer-encoding: chunked\r\n\r\n", "10000000000000000\r\nabc"),
+        ("HTTP/1.1 200 OK\r\ntransfer-encoding: chunked\r\n\r\n", "3\r\nabcX\r\n0\r\n\r\n"),
+        ("HTTP/1.1 200 OK\r\ntransfer-encoding: chunked\r\n\r\n", "3\r\nabc\r\n0\r\nX\r\n"),
+        ("HTTP/1.1 200 OK\r\ntransfer-encoding: chunked\r\n\r\n", "zz\r\nabc\r\n0\r\n\r\n"),
+        ("HTTP/1.1 200 OK\r\ntransfer-encoding: chunked\r\n\r\n", "3\rXabc\r\n0\r\n\r\n"),
+        ("HTTP/1.1 200 OK\r\ntransfer-encoding: chunked\r\n\r\n", "3;a\x01\r\nabc\r\n0\r\n\r\n"),
+        ("HTTP/1.1 200 OK\r\ntransfer-encoding: chunked\r\n\r\n", "3;a=\"b c\"\r\nabc\r\n0;last\r\n\r\n"),
+        ("HTTP/1.1 200 OK\r\ncontent-length: 3\r\nconnection: keep-alive, close\r\n\r\n", "abc"),
+        ("HTTP/1.1 200 OK\r\ncontent-length: 3\r\nconnection: close, x\r\n\r\n", "abc"),
+        ("HTTP/1.1 101 Switching Protocols\r\nupgrade: websocket\r\nconnection: upgrade\r\n\r\n", "frames"),
+        ("HTTP/1.0 200 OK\r\ncontent-length: 0\r\nconnection: keep-alive\r\n\r\n", ""),
+        ("HTTP/1.1 200 OK\r\n\r\n", "stray"),
+        ("HTTP/1.1 404 Not Found\r\ncontent-length: 0\r\n\r\n", ""),
+    ];
+    for (h, b) in &heads {
+        let mut full = h.as_bytes().to_vec();
+        full.extend_from_slice(b.as_bytes());
+        for close in [false, true] {
+            for split in 0..3 {
+                // a response that is not complete must end with a close, or the client would wait
+                let needs_close = !matches!(reference(&full, false), RefRead::Msg(RefMsg { body: Some(_), framing: Framing::NoBody | Framing::Length(_) | Framing::Chunked, .. }))
+;
+                // when the socket stays open nothing may follow the segment that ends the exchange
+                // (where the exchange ends is the code's business here, so: one segment)
+                if split > 0 && !(close || needs_close) {
+                    continue;
+                }
+                let segs = match split {
+                    0 => vec![full.clone()],
+                    1 => split_at_points(&full, &[h.len()]),
+                    _ => rand_split(&mut rng, &full),
+                };
+                let tok = req_tok(0, 'g', "f", &script_tok(&segs, None, close || needs_close));
+                cases.push(format!("lim=1 {} {} {}", tok, good_follow(0), good_follow(0)));
+            }
+        }
+    }
+    // a head that never ends: refused at MAX_BUFFER_SIZE
+    {
+        let mut big = b"HTTP/1.1 200 OK\r\nx-fill: ".to_vec();
+        big.extend(std::iter::repeat(b'a').take(140_000));
+        cases.push(format!("lim=1 {} {}", req_tok(0, 'g', "f", &script_tok(&[big], None, true)), good_follow(0)));
+    }
+    // large bodies: several reads per response
+    for n in [1023usize, 1024, 1025, 8192, 70_000] {
+        let body = body_bytes(&mut rng, n);
+        let r = Resp { v11: true, status: 200, fr: Fr::Len(body.clone()), conn: None, extra: vec![] };
+        let full = r.bytes();
+        cases.push(format!("lim=1 {} {}", req_tok(0, 'g', "f", &script_tok(&rand_split(&mut rng, &full), None, false)), good_follow(0)));
+        let cut = full.len() - 1 - rng.below(n);
+        cases.push(format!("lim=1 {} {}", req_tok(0, 'g', "f", &script_tok(&[full[..cut].to_vec()], None, true)), good_follow(0)));
+        let cs: Vec<Vec<u8>> = body.chunks(4000).map(|c| c.to_vec()).collect();
+        let r = Resp { v11: true, status: 200, fr: Fr::Chunked(cs, true), conn: None, extra: vec![] };
+        let full = r.bytes();
+        cases.push(format!("lim=1 {} {}", req_tok(0, 'g', "f", &script_tok(&rand_split(&mut rng, &full), None, false)), good_follow(0)));
+        let cut = full.len() - 1 - rng.below(n);
+        cases.push(format!("lim=1 {} {}", req_tok(0, 'g', &format!("p{}", n / 2), &script_tok(&[full[..cut].to_vec()], None, true)), good_follow(0)));
+    }
+    cases
+}
 
 pub fn prop() -> Prop {
-    Prop {
-        rule: "unimplemented",
-        parallel: false,
-        gen: Box::new(|_| Vec::new()),
-        run: Box::new(|_| CaseResult::ok("unimplemented".to_owned())),
-    }
+    Prop { rule: RULE, parallel: true, gen: Box::new(gen), run: Box::new(run) }
 }
